@@ -1002,6 +1002,23 @@ class GroupBy:
 
         if transform:
             self._unify_group_key_chunks()
+            if func_is_mean:
+                # the kernel ran "sum": turn the per-group sums into means before broadcasting
+                means = []
+                for total, count in zip(result_columns, counts):
+                    cnt = np.zeros(len(total), dtype=np.int64)
+                    cnt[: len(count)] = count[: len(total)]
+                    if total.dtype.kind in "mM":
+                        mean = np.where(
+                            cnt > 0,
+                            total.view("int64") // np.maximum(cnt, 1),
+                            np.iinfo(np.int64).min,
+                        ).view(total.dtype)
+                    else:
+                        with np.errstate(invalid="ignore", divide="ignore"):
+                            mean = total / cnt
+                    means.append(mean)
+                result_columns = means
             result_columns = [result[self.group_ikey] for result in result_columns]
             if common_index is not None:
                 result_index = common_index
